@@ -91,6 +91,8 @@ def run(ctx):
                       "update) interpreted abstractly from an unnamed and a named store of abstract objects agrees with list/dict semantics: list view = _objects = names.values() (identity "
                       "and order), keys as specified, pop returns what it removed, a failed operation leaves no trace (33 operations)", floor=1)
     ctx.rule("R18.k", "selector model: the validators of Selector and ListSelector interpreted abstractly (objects from a list / from a dict / a dict-declared selector after a list-style replacement x allow_None x check_on_set x None / object in force / object names still mentions / unknown object, 104 cases): accepted iff None with allow_None or one of the objects in force (_objects); nothing appended under check_on_set, unknown values appended once without it", floor=1)
+    ctx.rule("R18.l", "instance-copy model (shared with R12.p): the per-instance copy of a Selector gets its own `names` mapping and `_objects` list (every mutable slot other than the default is "
+                      "copied, OrderedDicts and empty containers included), so mutating one instance's objects never changes the class's or another instance's", floor=1)
     ctx.rule("R18.f", "outside ListProxy and the objects setter, _objects grows only in Selector._ensure_value_is_in_objects, which tests membership against the current objects for every single value", floor=1)
     ctx.not_decided += ["consistency after arbitrary mutation sequences (follows from per-mutator pairing but is not executed)",
                         "list mutators that ListProxy does not override (sort, reverse, __delitem__, +=) -- reported as informational"]
@@ -419,3 +421,5 @@ def _rule_g(ctx):
     listproxy_model.report(ctx, "R18.j")
     from checks import selector_model
     selector_model.report(ctx, "R18.k")
+    from checks import instcopy_model
+    instcopy_model.report(ctx, "R18.l")
